@@ -301,7 +301,7 @@ impl ast::AddGraphNodeAttribute {
         let mut attributes = Vec::new();
         let mut add_attribute = |a| attributes.push(a);
         for attribute in &self.attributes {
-            attribute.execute_lazy(exec, &mut add_attribute)?;
+            attribute.execute_lazy(exec, &mut add_attribute, 0)?;
         }
         let stmt =
             LazyAddGraphNodeAttribute::new(node, attributes, exec.error_context.clone().into());
@@ -329,7 +329,7 @@ impl ast::AddEdgeAttribute {
         let mut attributes = Vec::new();
         let mut add_attribute = |a| attributes.push(a);
         for attribute in &self.attributes {
-            attribute.execute_lazy(exec, &mut add_attribute)?;
+            attribute.execute_lazy(exec, &mut add_attribute, 0)?;
         }
         let stmt =
             LazyAddEdgeAttribute::new(source, sink, attributes, exec.error_context.clone().into());
@@ -836,6 +836,7 @@ impl ast::Attribute {
         &self,
         exec: &mut ExecutionContext,
         add_attribute: &mut F,
+        shorthand_depth: usize,
     ) -> Result<(), ExecutionError>
     where
         F: FnMut(LazyAttribute) -> (),
@@ -843,7 +844,7 @@ impl ast::Attribute {
         exec.cancellation_flag.check("executing attribute")?;
         let value = self.value.evaluate_lazy(exec)?;
         if let Some(shorthand) = exec.shorthands.get(&self.name) {
-            shorthand.execute_lazy(exec, add_attribute, value)
+            shorthand.execute_lazy(exec, add_attribute, value, shorthand_depth)
         } else {
             add_attribute(LazyAttribute::new(self.name.clone(), value));
             Ok(())
@@ -857,10 +858,19 @@ impl ast::AttributeShorthand {
         exec: &mut ExecutionContext,
         add_attribute: &mut F,
         value: LazyValue,
+        shorthand_depth: usize,
     ) -> Result<(), ExecutionError>
     where
         F: FnMut(LazyAttribute) -> (),
     {
+        // expansion is unconditional, so nesting deeper than the number of shorthands
+        // means that a shorthand expands to itself and would never finish
+        if shorthand_depth >= exec.shorthands.iter().count() {
+            return Err(ExecutionError::RecursivelyDefinedShorthand(format!(
+                "{}",
+                self.name
+            )));
+        }
         let mut shorthand_locals = VariableMap::new();
         let mut shorthand_exec = ExecutionContext {
             source: exec.source,
@@ -882,7 +892,7 @@ impl ast::AttributeShorthand {
         };
         self.variable.add_lazy(&mut shorthand_exec, value, false)?;
         for attr in &self.attributes {
-            attr.execute_lazy(&mut shorthand_exec, add_attribute)?;
+            attr.execute_lazy(&mut shorthand_exec, add_attribute, shorthand_depth + 1)?;
         }
         Ok(())
     }
